@@ -330,22 +330,39 @@ fn c14_variants(r: &mut Rep) {
     for seq in sequences(if thorough() { 5 } else { 4 }) {
         if !seq.iter().any(|m| matches!(m, Mk::Rep | Mk::StopRep)) { continue; }
         for sel in ["", "type_hint", "ghost", "map"] {
-            let rep_txt = if sel.is_empty() { "#[o2o(repeat)]".to_string() } else { format!("#[o2o(repeat({}))]", sel) };
-            let carried = "#[type_hint(as {})]";
-            let recv = if sel == "" || sel == "type_hint" { carried } else { "" };
-            let (mut a, mut b) = (String::new(), String::new());
-            let mut active = false;
-            for (i, m) in seq.iter().enumerate() {
-                match m {
-                    Mk::None => { a += &format!("V{}(i32), ", i); b += &format!("{} V{}(i32), ", if active { recv } else { "" }, i); }
-                    Mk::Own => { a += &format!("#[map(W{})] V{}(i32), ", i, i); b += &format!("#[map(W{})] {} V{}(i32), ", i, if active { recv } else { "" }, i); }
-                    Mk::Skip => { a += &format!("#[o2o(skip_repeat)] #[map(W{})] V{}(i32), ", i, i); b += &format!("#[map(W{})] V{}(i32), ", i, i); }
-                    Mk::Stop => { active = false; a += &format!("#[o2o(stop_repeat)] V{}(i32), ", i); b += &format!("V{}(i32), ", i); }
-                    Mk::Rep => { active = true; a += &format!("{} {} V{}(i32), ", rep_txt, carried, i); b += &format!("{} V{}(i32), ", carried, i); }
-                    Mk::StopRep => { active = true; a += &format!("#[o2o(stop_repeat)] {} {} V{}(i32), ", rep_txt, carried, i); b += &format!("{} V{}(i32), ", carried, i); }
+            // fl: a field-level repeat block opened inside variant `fl.0` (permeating the later variants or not), or none:
+            // the variant-level and the field-level blocks must not disturb each other
+            let n = seq.len();
+            let mut fls: Vec<Option<(usize, bool)>> = vec![None];
+            for j in 0..n { fls.push(Some((j, false))); fls.push(Some((j, true))); }
+            for fl in fls {
+                let rep_txt = if sel.is_empty() { "#[o2o(repeat)]".to_string() } else { format!("#[o2o(repeat({}))]", sel) };
+                let carried = "#[type_hint(as ())]";
+                let recv = if sel == "" || sel == "type_hint" { carried } else { "" };
+                let fcar = "#[from(~ * 2)] #[into(~ / 2)]";
+                // payload of variant i in the repeat form (pa) and written out (pb)
+                let payload = |i: usize| -> (String, String) {
+                    match fl {
+                        Some((j, perm)) if i == j => (format!("{{ {} {} a: i32, b: i32 }}", if perm { "#[o2o(repeat(permeate()))]" } else { "#[o2o(repeat)]" }, fcar), format!("{{ {} a: i32, {} b: i32 }}", fcar, fcar)),
+                        Some((j, true)) if i > j => ("(i32)".to_string(), format!("({} i32)", fcar)),
+                        _ => ("(i32)".to_string(), "(i32)".to_string()),
+                    }
+                };
+                let (mut a, mut b) = (String::new(), String::new());
+                let mut active = false;
+                for (i, m) in seq.iter().enumerate() {
+                    let (pa, pb) = payload(i);
+                    match m {
+                        Mk::None => { a += &format!("V{}{}, ", i, pa); b += &format!("{} V{}{}, ", if active { recv } else { "" }, i, pb); }
+                        Mk::Own => { a += &format!("#[map(W{})] V{}{}, ", i, i, pa); b += &format!("#[map(W{})] {} V{}{}, ", i, if active { recv } else { "" }, i, pb); }
+                        Mk::Skip => { a += &format!("#[o2o(skip_repeat)] #[map(W{})] V{}{}, ", i, i, pa); b += &format!("#[map(W{})] V{}{}, ", i, i, pb); }
+                        Mk::Stop => { active = false; a += &format!("#[o2o(stop_repeat)] V{}{}, ", i, pa); b += &format!("V{}{}, ", i, pb); }
+                        Mk::Rep => { active = true; a += &format!("{} {} V{}{}, ", rep_txt, carried, i, pa); b += &format!("{} V{}{}, ", carried, i, pb); }
+                        Mk::StopRep => { active = true; a += &format!("#[o2o(stop_repeat)] {} {} V{}{}, ", rep_txt, carried, i, pa); b += &format!("{} V{}{}, ", carried, i, pb); }
+                    }
                 }
+                r.same(&format!("#[map(F)]\nenum E {{ {} }}", a), &format!("#[map(F)]\nenum E {{ {} }}", b));
             }
-            r.same(&format!("#[map(F)]\nenum E {{ {} }}", a), &format!("#[map(F)]\nenum E {{ {} }}", b));
         }
     }
 }
